@@ -259,7 +259,7 @@ def t_long(part, nparts, tier):
 	search that works in blocks, or changes strategy above some length, loses or invents k-mers exactly there."""
 	sh = Shard()
 	specs = [(4, b'AT'), (11, b'ATGAC'), (16, b'ATGAC')]
-	ps = [1 << 10, 1 << 12, 1 << 13, 1 << 16] + ([1 << 20] if tier != 'quick' else [])
+	ps = [1 << 10, 1 << 12, 1 << 13, 1 << 14, 1 << 15, 1 << 16, 1 << 17] + ([1 << 18, 1 << 19, 1 << 20, 3 << 17] if tier != 'quick' else [])
 	ci = 0
 	for k, prefix in specs:
 		km = R.ref_kmer((0x9E3779B97F4A7C15 >> 3) % 4 ** k, k)
@@ -267,6 +267,8 @@ def t_long(part, nparts, tier):
 		motifs = [fwd, R.ref_revcomp(fwd), fwd.lower(), prefix + b'N' + km[1:], fwd + R.ref_revcomp(fwd)]
 		for bg in (b'G', b'c', b'N'):
 			for p in ps:
+				if p >= (1 << 15) and bg != b'G' and tier == 'quick':
+					continue
 				for m in motifs:
 					for off in range(-len(m) - 1, 2):
 						ci += 1
